@@ -86,6 +86,16 @@ def jobs(tier, seed):
                    "budget": {"signal": 1, "noack": 1}, "kind": "e1"})
     js.append({"label": "gate|persistent|crash-images", "wl": wl("suspend_gate"), "persistent": True, "kind": "e2",
                "pairs": tier == "thorough"})
+    from checks import C07
+
+    for name in C07.ENGINE:
+        if not name.startswith("SignalStage"):
+            continue
+        bound = 2 if tier == "quick" else 3
+        shards = 4 if bound == 2 else 16
+        for k in range(shards):
+            js.append({"label": f"e3 {name}|preemptions<={bound}|shard{k}/{shards}", "kind": "e3", "scenario": name,
+                       "bound": bound, "shard": [k, shards]})
     if tier == "thorough":
         for p in (True, False):
             tag = "persistent" if p else "transient"
@@ -178,6 +188,13 @@ def run_e2(job):
 
 
 def run_job(job):
+    if job["kind"] == "e3":
+        from checks import C07
+
+        r = C07.run_job(dict(job, kind="engine"))
+        r["job_spec"] = job
+        r["states"] = r["transitions"] = r.get("points", 0)
+        return r
     if job["kind"] == "e2":
         return run_e2(job)
     ex = build(job).run()
@@ -188,11 +205,16 @@ def run_job(job):
 
 def aggregate(results, tier, seed, pre):
     good = [r for r in results if "harness_error" not in r]
-    return aggregate_e1(results, tier, seed, pre, extra_cov={"crash_points": sum(r.get("crash_points", 0) for r in good)})
+    return aggregate_e1(results, tier, seed, pre, extra_cov={
+        "crash_points": sum(r.get("crash_points", 0) for r in good),
+        "interleaving_executions": sum(r.get("executions", 0) for r in good if r.get("job_spec", {}).get("kind") == "e3")})
 
 
 def replay(payload):
     job = payload["job"]
+    if job["kind"] == "e3":
+        r = run_job(job)
+        return {"violations": [v for v in r["violations"] if v["signature"] == payload["violation"].get("signature")]}
     if job["kind"] == "e2":
         r = run_e2(job)
         return {"violations": [v for v in r["violations"] if v["signature"] == payload["violation"].get("signature")]}
